@@ -822,7 +822,7 @@ theorem core_e2e {a0 b : Config} {sc : Scripts} (hw : WF a0 b sc) {d0 d1 : Dev} 
     · rw [hasAcl_strip, k2]; exact h2
     · have : linesOf (strip d3) ((st3Of a0 b sc).nameOf bd.acl) = linesOf d1 ((st3Of a0 b sc).nameOf bd.acl) := by
         simp only [linesOf, entriesOf_strip, k1]
-      rw [this]; exact h3
+      rw [this]; exact h3.1
   · intro bi hbi dir hdir hnb
     obtain ⟨ai, hai, hain, hdn⟩ := hc.done bi hbi
     rw [slotOf_strip, hslot3]
